@@ -23,6 +23,23 @@ Theorem C17_same_key_set : forall l,
                           (match jproj (XM l) with JObj m => m | _ => [] end).
 Proof. exact jproj_keys_perm. Qed.
 
+(* json_wrappers_transparent: style / link wrappers (export.Format, export.Link) carry no data.  Any stack of
+   wrappers, in any order and of any depth, around a value exports to the bytes of the value itself ... *)
+Theorem json_wrappers_transparent : forall (ws : list bool) (v : xv),
+  export json_tbl (wrap ws v) = export json_tbl v.
+Proof. exact (export_wrap json_tbl). Qed.
+
+(* ... and decodes to the structure of the value itself *)
+Theorem json_wrappers_transparent_proj : forall (ws : list bool) (v : xv), jproj (wrap ws v) = jproj v.
+Proof. exact jproj_wrap. Qed.
+
+(* the same at every level of the tree at once: removing all wrappers everywhere leaves the bytes unchanged.
+   C17_export_roundtrip above already quantifies over wrapped trees (xv has the wrapper constructor): the
+   document is valid JSON and decodes to jproj v, the structure of the unwrapped tree *)
+Theorem json_wrappers_transparent_deep : forall v : xv,
+  export json_tbl (strip_wrappers v) = export json_tbl v.
+Proof. exact (export_strip json_tbl). Qed.
+
 (* non-vacuity: a nested value with quote, backslash and a control character *)
 Example C17_nonvacuous :
   json_parse (export json_tbl (XM [([98%N], XL [XS [34; 92; 1]%N; XS []]); ([97%N], XS [10%N])]))
@@ -33,3 +50,6 @@ Print Assumptions C17_table_ok.
 Print Assumptions C17_string.
 Print Assumptions C17_export_roundtrip.
 Print Assumptions C17_same_key_set.
+Print Assumptions json_wrappers_transparent.
+Print Assumptions json_wrappers_transparent_proj.
+Print Assumptions json_wrappers_transparent_deep.
